@@ -25,7 +25,7 @@ BUFSIZE = 4096
 
 C17_THEOREMS = ["C17_cache_ok_initially", "C17_run_prefix_preserves_inv", "C17_crash_points_are_prefixes",
                 "C17_history_preserves_inv", "C17_cold_run", "C17_second_run_sound", "C17_second_run_profile",
-                "C17_old_protocol_refuted", "C17_old_protocol_refuted_by_crash"]
+                "C17_old_protocol_refuted", "C17_old_protocol_refuted_by_crash", "C17_profiler_inputs_are_the_documented_flags"]
 C18_THEOREMS = ["C18_profile_sorted", "C18_profile_nodup", "C18_profile_members", "C18_profile_members_disjoint",
                 "C18_profile_allow_wins", "C18_profile_in_table", "C18_profile_perm_invariant", "C18_profile_decides",
                 "C18_listed_spec", "C18_generated_tables_unambiguous", "C18_profile_on_generated_tables",
@@ -34,6 +34,12 @@ C18_THEOREMS = ["C18_profile_sorted", "C18_profile_nodup", "C18_profile_members"
 FAKE_GO = r"""#!/bin/sh
 # stands in for "go tool objdump <binary>": emits (a prefix of) the listing named by FAKE_LISTING
 [ "$1" = tool ] && [ "$2" = objdump ] && [ -n "$3" ] || exit 2
+if [ "$3" = "-s" ] || [ "$3" = "--s" ]; then
+  # like the real tool: only the functions whose symbol matches the expression
+  tmp="${FAKE_MARK}.filtered"
+  awk -v re="$4" '/^TEXT /{keep = ($2 ~ re)} keep' "$FAKE_LISTING" > "$tmp"
+  FAKE_LISTING="$tmp"
+fi
 if [ -n "$FAKE_K" ]; then head -c "$FAKE_K" "$FAKE_LISTING"; else cat "$FAKE_LISTING"; fi
 case "$FAKE_MODE" in
 fail) exit "${FAKE_RC:-3}" ;;
@@ -302,6 +308,7 @@ def setup_common(ctx, prop_file, theorems, need_gen):
     else:
         proof_step(ctx, prop_file, theorems)
     env = ProfEnv(ctx)
+    env.gen = gen
     err = env.build()
     if err is None:
         err = env.learn_cache_dir()
@@ -310,6 +317,40 @@ def setup_common(ctx, prop_file, theorems, need_gen):
         rewrite_with_replay_cmd(ctx, p)
         return None
     return env
+
+
+DOCUMENTED_PROFILER_FLAGS = ["allow", "b", "d", "format", "out", "pkg", "t"]
+
+
+def undocumented_flags(env):
+    """Flags the profiler of the CURRENT tree registers besides the documented ones: [(name, kind of registration)]."""
+    if not getattr(env, "gen", None):
+        return []
+    try:
+        text = open(os.path.join(env.gen, "GenAmbient.v")).read()
+    except OSError:
+        return []
+    m = re.search(r"Definition profiler_flags .*?:= \[(.*?)\]\.", text, re.S)
+    if not m:
+        return []
+    return [(a, b) for a, b in re.findall(r'\("([^"]*)"%string, "([^"]*)"%string\)', m.group(1)) if a not in DOCUMENTED_PROFILER_FLAGS]
+
+
+def c17_new_flag_runs(ctx, env, flag, kind, listing_path, cold_stdout):
+    """A flag the model does not know: the profiler is run WITH it first (several values), then without it on the same
+    binary path. The plain run must print the cold-cache profile (or fail)."""
+    values = [None] if kind.startswith("Bool") else ["main\\.", "x", ".", "^$", "1", "0", "amd64", "386", "/dev/null", "true"]
+    for v in values:
+        d = env.new_case_dir()
+        b, _h = env.place(d, "X86_64", "v1", base="newflag")
+        args = ["-" + flag] + ([] if v is None else [v])
+        r1 = env.run(b, ["-format", "config"] + args, listing_path)
+        r2 = env.run(b, ["-format", "config"], listing_path)
+        env.snapshot(b)
+        env.cleanup_case(b)
+        if r2["rc"] == 0 and r2["stdout"] != cold_stdout:
+            return dict(flag=flag, value=v, first_run_rc=r1["rc"], plain_run_profile=r2["stdout"][:1500], expected_profile=cold_stdout[:1500])
+    return None
 
 
 # ------------------------------------------------------------------------------------------------ listings
@@ -631,7 +672,7 @@ def c17_full_cache_fs(ctx, env, listing_path, listing_len, size_kib, tmp_elsewhe
 
 def check_C17(ctx, replay=None):
     rng = random.Random((replay or {}).get("seed", ctx.seed) * 1000003 + 17)
-    env = setup_common(ctx, "C17.v", C17_THEOREMS, need_gen=False)
+    env = setup_common(ctx, "C17.v", C17_THEOREMS, need_gen=True)
     if env is None:
         return
     h, err = ctx.build_harness()
@@ -795,6 +836,19 @@ def _c17_body(ctx, env, rng, replay):
         if len(samples) < 3 and hist["first"]:
             samples.append(dict(arch=an, history=hist, steps=[dict(step=o["step"], rc=o["rc"], files=o["files"], cached=o["cached"]) for o in res["obs"]],
                                 final_profile_equals_cold=(last["stdout"] == cold["stdout"])))
+    # flags that the profiler of this tree registers and the model does not know: with the flag first, then without it
+    if not replay or replay.get("new_flag"):
+        for (fl, kd) in undocumented_flags(env):
+            if replay and replay.get("new_flag") != fl:
+                continue
+            res = c17_new_flag_runs(ctx, env, fl, kd, listings["X86_64"]["p1"], listings["X86_64"]["cold"]["stdout"])
+            if res:
+                nbad += 1
+                p = ctx.violation("counterexample", dict(
+                    what="C17: after a run with the (undocumented) flag -%s the plain run on the same binary printed a profile that is not the cold-cache profile: the cached disassembly is not complete for the binary" % fl,
+                    new_flag=fl, **res), True)
+                rewrite_with_replay_cmd(ctx, p)
+                break
     # the cache directory on a file system that is too small for the disassembly (needs the privilege to mount a tmpfs;
     # recorded as skipped otherwise)
     fullfs = []
